@@ -788,6 +788,40 @@ pub fn op_obpre(args: &[&str]) -> String {
             w
         }
     };
+    if args[5] == "reusesync" {
+        // one long-lived reader over an append-only source: `create` for the prefix, the source grows, `create` again
+        // on the SAME reader (left wherever the first call left it)
+        struct GrowRead {
+            data: Vec<u8>,
+            visible: usize,
+            pos: usize,
+        }
+        impl std::io::Read for GrowRead {
+            fn read(&mut self, buf: &mut [u8]) -> std::io::Result<usize> {
+                let n = buf.len().min(self.visible - self.pos.min(self.visible));
+                buf[..n].copy_from_slice(&self.data[self.pos..self.pos + n]);
+                self.pos += n;
+                Ok(n)
+            }
+        }
+        impl std::io::Seek for GrowRead {
+            fn seek(&mut self, p: std::io::SeekFrom) -> std::io::Result<u64> {
+                let np = match p {
+                    std::io::SeekFrom::Start(x) => x as i64,
+                    std::io::SeekFrom::End(x) => self.visible as i64 + x,
+                    std::io::SeekFrom::Current(x) => self.pos as i64 + x,
+                };
+                self.pos = np.max(0) as usize;
+                Ok(self.pos as u64)
+            }
+        }
+        use sync::CreateOutboard;
+        let mut rd = GrowRead { data: ext.clone(), visible: n, pos: 0 };
+        let a = PostOrderOutboard::<Vec<u8>>::create(&mut rd, bs).unwrap().data;
+        rd.visible = ext.len();
+        let b = PostOrderOutboard::<Vec<u8>>::create(&mut rd, bs).unwrap().data;
+        return obpre_report(&a, &b, &ext, n, bs, &mk);
+    }
     let a = mk(pre);
     // "grow…": the outboard of the prefix is extended IN PLACE (buffer resized, tree replaced, brought up to date
     // through the OutboardMut path), as an application that appends to a blob would do it
@@ -806,6 +840,10 @@ pub fn op_obpre(args: &[&str]) -> String {
     } else {
         mk(&ext)
     };
+    obpre_report(&a, &b, &ext, n, bs, &mk)
+}
+
+fn obpre_report(a: &[u8], b: &[u8], ext: &[u8], n: usize, bs: BlockSize, mk: &dyn Fn(&[u8]) -> Vec<u8>) -> String {
     let tree = BaoTree::new(n as u64, bs);
     let stable = tree
         .post_order_nodes_iter()
@@ -817,7 +855,7 @@ pub fn op_obpre(args: &[&str]) -> String {
     }
     // the grown outboard against the one computed from scratch: common prefix in pairs, and the number of
     // stable pairs of the extension (those must be right for the outboard to be a prefix of further extensions)
-    let fresh = mk(&ext);
+    let fresh = mk(ext);
     let t2 = BaoTree::new(ext.len() as u64, bs);
     let stable2 = t2
         .post_order_nodes_iter()
